@@ -39,7 +39,12 @@ RULE = ("hierarchies = every C3-valid base assignment over <=4 classes in which 
         "tuple / single; on_setattr list / tuple; these= dict / OrderedDict; make_class list / tuple / dict),"
         " each user-kept object mutated after class creation and every view re-read (fields, fields_dict, "
         "every class of the hierarchy, subclasses defined before and after the mutation; "
-        "validators/converters/hooks are probed by calling them); background: slots, field() vs attr.ib, "
+        "validators/converters/hooks are probed by calling them); history of the class object before the "
+        "decoration under test (harness-only; the expected tuple is a function of the body): a decoration "
+        "attempt attrs refuses after looking at the body (cache_hash without hashing / frozen with on_setattr"
+        " / non-bool hash / cache_hash with init=False) then the valid one on the same class object, a "
+        "slotted build of the same plain class first, body objects (attr.ib()s, these= dict) already used by "
+        "another class; background: slots, field() vs attr.ib, "
         "repr/eq on/off.  non-trivial = the class under test "
         "has an inherited field, a transformer or twins; distinct = distinct JSON case")
 ASSUMPTIONS = [
@@ -47,6 +52,7 @@ ASSUMPTIONS = [
     "sorted(key=counter) is modelled by a stable insertion sort (proved to sort: C07_counter_sorted)",
     "the user's field_transformer is an input: the model applies the same list function the harness installs",
     "Attribute immutability and metadata/validator/these isolation are observed on the real objects (constant in the model)",
+    "the model is a function of the class body and decorator arguments: histories of the class object (refused earlier decoration, slotted build first, shared body objects) are harness-only variation",
     "the defining class of a survivor is observed through a metadata tag / marker annotation type placed by the harness",
     "the MRO collector reads each class's own __attrs_attrs__ (post-K07a repair); the legacy collector's and has()'s getattr lookup is modelled as 'first class of base's MRO that has its own tuple'",
 ]
@@ -66,6 +72,8 @@ LEVEL_TEXT = ("Lean theorems for arbitrary tables of base tuples, MROs, hierarch
               "inspect.signature; errors of base classes are mirrored by the model but not constrained by the spec.")
 
 POOL = ["x", "y", "_z"]
+HISTORIES = ["failed_cache_hash", "failed_frozen_on_setattr", "failed_hash_value", "failed_cache_hash_no_init",
+             "twice_slots_first", "shared"]
 QUICK_GEN_S = 26
 THOROUGH_GEN_S = 370
 DEFAULT_OPTS = {"hasDefault": False, "init": True, "kwOnly": False, "alias": None, "tag": None}
@@ -503,6 +511,9 @@ def base_cfg(rng, shape_bases, rich):
             pc["validators"] = rng.random() < 0.3
             pc["field_fn"] = rng.random() < 0.7
             pc["these_rev"] = rng.random() < 0.7
+            # the HISTORY of the class object / its body objects before the decoration under test
+            if rng.random() < 0.45:
+                pc["history"] = rng.choice(HISTORIES)
             # the KIND of every user-supplied container
             pc["ck"] = {"md": rng.choice(["dict", "dict", "proxy", "odict", "mapping"]),
                         "val": rng.choice(["none", "none", "list", "tuple", "and", "list_and"]),
@@ -687,6 +698,8 @@ def dist(case, obs):
         "err": "none" if not o.get("err") else f"{'leaf' if o['err'][0] == len(cs) - 1 else 'base'}:{o['err'][1]}",
         "twins": len(case["twins"]),
         "kw_only_cls": last["kwOnly"],
+        "history_leaf": case["cfg"]["per"][-1].get("history", "none"),
+        "md_kind_leaf": case["cfg"]["per"][-1].get("ck", {}).get("md", "dict"),
     }
 
 
